@@ -45,7 +45,7 @@ def main():
              "kind_free_text": "bounded-exhaustive sequential explorer: enumerates inputs / programs / histories from small alphabets on the real lib/query code in process, sharded over 16 worker processes, each case compared with a reference model"},
             {"name": "fsx", "path": "harness/internal/fsx + shim/vfs", "serves_properties": [p for p in ALL if p in CHECKS and CHECKS[p]["engine"] == "fsx"],
              "kind_free_text": "file-system-step scheduler / fault injector over the real lib/file and lib/query code (overlay-instrumented): all interleavings of simulated processes, all crash and fault points"},
-            {"name": "gox", "path": "harness/internal/gox + shim/vsched", "serves_properties": [p for p in ALL if p in CHECKS and CHECKS[p]["engine"] == "gox"],
+            {"name": "gox", "path": "harness/internal/gox + shim/vrt", "serves_properties": [p for p in ALL if p in CHECKS and CHECKS[p]["engine"] == "gox"],
              "kind_free_text": "goroutine-schedule explorer for the worker goroutines inside one query, map iteration order as a choice point, race detector kept sighted"},
         ],
         "checks": checks,
